@@ -1,5 +1,5 @@
 # What each claimed check asserts about itself (copied into MANIFEST.json by gen_manifest.py).
-HOOK_COMMITS = ["60bdaa0"]
+HOOK_COMMITS = ["60bdaa0", "64099f4"]
 NOT_APPLICABLE = {}
 CLAIMS = {
     "C20": {
@@ -246,3 +246,11 @@ CLAIMS['C19']["note"] += ' Challenge freshness is judged per call: any challenge
 
 CLAIMS["C01"]["text"] += " The real upgrader is additionally driven in both roles with match / other / empty expectations per side (a named peer in the server role is what a simultaneous-open dial uses): a side that names the peer it expects never gets a connection to anyone else."
 CLAIMS["C02"]["text"] += " The connection under every layer also delivers io.EOF together with the last bytes in a third of the cases."
+
+CLAIMS["C06"]["text"] += (" Every connection DialPeer hands to a caller must have been announced. Half of the cases also carry a schedule plan for four schedule points inside the swarm "
+    "(hook under build tag verif: after a connection is registered, after it is announced, after it is removed, before Swarm.Close waits): the goroutine reaching a point gives way (Gosched n times, or a virtual "
+    "sleep of 1 us - 5 ms at the two admission points, where no lock is held), so that admission, removal and shutdown racing at one instant are explored in both orders.")
+CLAIMS["C04"]["text"] += (" The swarm pairs also generate a fault that closes the node's connections while the n-th resource-manager call of a kind (OpenStream, SetProtocol, SetService, SetPeer, OpenConnection) is in progress.")
+CLAIMS["C07"]["text"] += (" Every open additionally draws the application's first operation on the fresh stream (Write, empty Write, Read with the handler speaking first, empty Read, CloseWrite with nothing sent, Close at once, Write+CloseWrite) on eager and on lazily negotiated "
+    "(known, stale, over-optimistic knowledge) streams; a stream bound to an accepted protocol must reach exactly one right handler and the bytes (or 'nothing, then EOF') must arrive there whatever the first operation is; the small domain of 12 handler configs x 4 requests x 5 knowledge states x 4 host pairings x 7 first operations is enumerated exhaustively.")
+CLAIMS["C07"]["note"] += (" Handlers greet before reading and hold their stream until the per-side resource-scope audit is done; for a stream closed at once only the listener side is checked; Reset, CloseRead and never-used streams are not generated as first operations (statement silent).")
